@@ -1756,7 +1756,7 @@ def canonicalise(ex: Explore):
 #   method (fixed when the def executed: int) does the opposite — the decorator resolves the string at the END of the
 #   class body against the final class dictionary (Lean: C07_rebound_class_decorated_counterexample);
 #   Lc+Vc = the name is bound in the class body before AND after the method
-PENDING_KNOWN: set = {'C07:bound-instead-of-bound:bare:Lc+Vc'}
+PENDING_KNOWN: set = set()        # (keys found while extending the generator are listed in known_findings.json)
 
 
 def pass_over_pending(ck, ex: Explore):
